@@ -22,11 +22,15 @@ import (
 	"path/filepath"
 	"strconv"
 	"strings"
+	"sync"
 	"sync/atomic"
 	"syscall"
 	"testing"
 	"time"
 )
+
+// installDepHook is set by c10_dephook_test.go in the dependency-hook build.
+var installDepHook func(func(string))
 
 type c10Scenario struct {
 	Name   string
@@ -38,6 +42,8 @@ type c10Scenario struct {
 	SnapAtFrame int
 	// drop the connection in the middle of this frame (0 = send everything)
 	CutInFrame int
+	// the request is served on the trigger frame (two recordings start together)
+	SameFrameStart bool
 }
 
 func c10Frames(cam pCamera, pattern string) []*pFrame {
@@ -90,7 +96,7 @@ func c10Scenarios() []c10Scenario {
 	out = append(out, s6)
 	s7 := c10Scenario{Name: "S7", What: "'clear' in the middle of a recording", Cfg: base(), Cam: cam, Frames: c10Frames(cam, "ffffmmmCfffmmmfffffff")}
 	out = append(out, s7)
-	s8 := c10Scenario{Name: "S8", What: "test-recording request served on the frame that triggers a motion recording (both files start in the same millisecond)", Cfg: base(), Cam: cam, Frames: c10Frames(cam, "ffffmmmffffffffffffffffffffffffff"), SnapAtFrame: 4}
+	s8 := c10Scenario{Name: "S8", What: "test-recording request served on the frame that triggers a motion recording (both files start in the same millisecond)", Cfg: base(), Cam: cam, Frames: c10Frames(cam, "ffffmmmffffffffffffffffffffffffff"), SnapAtFrame: 4, SameFrameStart: true}
 	out = append(out, s8)
 	return out
 }
@@ -203,12 +209,39 @@ func TestVerif_C10Child(t *testing.T) {
 		fmt.Fprintf(f, "%s: %s\n", where, strings.Join(bad, "; "))
 		f.Close()
 	}
+	// a finished recording must never change again: data of a recording in
+	// progress only ever lives under temporary names
+	var fpMu sync.Mutex
+	fingerprints := map[string]string{}
+	checkImmutable := func(where string) {
+		fpMu.Lock()
+		defer fpMu.Unlock()
+		for _, dir := range []string{r.OutDir, filepath.Join(r.OutDir, "constant-recordings")} {
+			for _, n := range dirListing(dir) {
+				if !strings.HasSuffix(n, ".cptv") {
+					continue
+				}
+				b, err := ioutil.ReadFile(filepath.Join(dir, n))
+				if err != nil {
+					continue
+				}
+				fp := fmt.Sprintf("%d bytes, hash %x", len(b), vNewHash().Bytes(b).Sum())
+				if old, ok := fingerprints[dir+"/"+n]; ok && old != fp {
+					reportI1(where, []string{fmt.Sprintf("%s was rewritten in place after it had been given its final name (%s -> %s)", n, old, fp)})
+				}
+				fingerprints[dir+"/"+n] = fp
+			}
+		}
+	}
 	// free-running observer (sampling)
 	stop := make(chan struct{})
 	obsDone := make(chan struct{})
 	var samples int64
 	go func() {
 		defer close(obsDone)
+		if os.Getenv("VERIF_C10_NO_OBSERVER") != "" {
+			return
+		}
 		for {
 			select {
 			case <-stop:
@@ -219,7 +252,7 @@ func TestVerif_C10Child(t *testing.T) {
 				reportI1("free-running observer", bad)
 			}
 			atomic.AddInt64(&samples, 1)
-			time.Sleep(200 * time.Microsecond)
+			time.Sleep(500 * time.Microsecond)
 		}
 	}()
 	hook := func(n string) {
@@ -233,19 +266,31 @@ func TestVerif_C10Child(t *testing.T) {
 			}
 			return
 		}
-		if !strings.HasPrefix(n, "rec.") {
+		if !strings.HasPrefix(n, "rec.") && !strings.HasPrefix(n, "cptv.") {
 			return
 		}
 		h := atomic.AddInt64(&hits, 1)
-		// synchronous observer at hook granularity
-		if bad, _ := scanComplete(r.OutDir); len(bad) > 0 {
-			reportI1(fmt.Sprintf("hook #%d %s", h, n), bad)
+		// synchronous observer at hook granularity. (Not while the frame on which two
+		// recordings start together is being processed: the scan would push the two
+		// starts into different milliseconds and hide the collision S8 is about.)
+		if !(sc.SameFrameStart && int(atomic.LoadInt64(&framesRx)) == sc.SnapAtFrame+1) {
+			if bad, _ := scanComplete(r.OutDir); len(bad) > 0 {
+				reportI1(fmt.Sprintf("hook #%d %s", h, n), bad)
+			}
+			checkImmutable(fmt.Sprintf("hook #%d %s", h, n))
 		}
 		if killAt > 0 && int(h) == killAt {
 			ioutil.WriteFile(filepath.Join(root, "killed_at.txt"), []byte(fmt.Sprintf("%d %s", h, n)), 0644)
 			syscall.Kill(os.Getpid(), syscall.SIGKILL)
 			time.Sleep(time.Hour)
 		}
+	}
+	if installDepHook != nil {
+		installDepHook(func(n string) {
+			if h := VerifHook; h != nil {
+				h(n)
+			}
+		})
 	}
 	cw := &chunkWriter{rng: vNewRNG(7), mode: 2}
 	hdr := sc.Cam.headerBytes()
@@ -277,6 +322,24 @@ func TestVerif_C10Child(t *testing.T) {
 		return nil
 	}
 	r.serve(feed, hook)
+	// S8 repetitions: whether the two starts share a millisecond is up to the clock,
+	// so the same connection is replayed several times in fresh directories
+	if rep, _ := strconv.Atoi(os.Getenv("VERIF_C10_REPEAT")); rep > 0 && killAt == 0 {
+		for i := 0; i < rep; i++ {
+			if _, err := os.Stat(i1file); err == nil {
+				break
+			}
+			r2, err := prepareConn(root, sc.Cfg, sc.Cam)
+			if err != nil {
+				break
+			}
+			fpMu.Lock()
+			r = r2
+			fpMu.Unlock()
+			atomic.StoreInt64(&framesRx, 0)
+			r.serve(feed, hook)
+		}
+	}
 	close(stop)
 	<-obsDone
 	ioutil.WriteFile(filepath.Join(root, "hits.txt"), []byte(fmt.Sprintf("%d %d %v", hits, atomic.LoadInt64(&samples), r.Err)), 0644)
@@ -348,6 +411,23 @@ func TestVerif_C10(t *testing.T) {
 			continue
 		}
 		c.Note("crash_points_"+sc.Name, base.Hits)
+		if sc.SameFrameStart {
+			// whether the two starts share a millisecond is up to the clock: repeat the
+			// uncrashed run a few times (each is judged like kill point 0)
+			for rep := 0; rep < 2; rep++ {
+				os.Setenv("VERIF_C10_REPEAT", "10")
+				os.Setenv("VERIF_C10_NO_OBSERVER", "1")
+				o, err := c10RunChild(scratch, sc.Name, 0)
+				os.Unsetenv("VERIF_C10_REPEAT")
+				os.Unsetenv("VERIF_C10_NO_OBSERVER")
+				c.Count("same_frame_start_repetitions", 11)
+				if err == nil && o.I1InChild != "" {
+					c.Case(int64(si*10000+9000+rep), func() interface{} { return map[string]interface{}{"scenario": sc.Name, "what": sc.What, "repetition": rep} }, func() {
+						c.Violation("incomplete-file-bears-cptv-name", sc.Name+"; observed while running", fmt.Sprintf("scenario %s (%s), uncrashed repetition %d: %s", sc.Name, sc.What, rep, tail(o.I1InChild, 1200)))
+					})
+				}
+			}
+		}
 		for n := 0; n <= base.Hits; n++ {
 			idx := int64(si*10000 + n)
 			if !c.Mine(idx) {
@@ -397,7 +477,7 @@ func TestVerif_C10(t *testing.T) {
 					c.Violation("incomplete-file-after-cleanup", sc.Name, where+": "+strings.Join(bad2, "; "))
 					return
 				}
-				if complete2 != complete {
+				if complete2 < complete {
 					c.Violation("cleanup-removed-complete-recording", sc.Name, fmt.Sprintf("%s: %d complete recordings before clean-up, %d after", where, complete, complete2))
 					return
 				}
@@ -406,6 +486,9 @@ func TestVerif_C10(t *testing.T) {
 					return
 				}
 				c.Count("crash_points", 1)
+				if strings.Contains(o.KilledAt, "cptv.") {
+					c.Count("crash_points_inside_cptv_writer", 1)
+				}
 				c.Count("complete_recordings_seen", int64(complete))
 				c.Count("hook_scans_in_children", int64(o.Hits))
 				c.Count("free_running_samples", int64(o.Samples))
